@@ -30,7 +30,17 @@ Theorem C03_out_of_type_range_sound_in_C_partial p vt ct cl o c b :
 Proof. exact (oor_in_context_sound p vt ct cl o c b). Qed.
 Print Assumptions C03_out_of_type_range_sound_in_C_partial.
 
-(* ... and wrong otherwise (replayed on the real binary: known finding oor-signed-operand-converted-to-unsigned) *)
+(* since fix 6eefeb1 a signed operand that is converted to an unsigned type is not judged at all
+   (`short x; x < 40000U`, formerly reported always true) *)
+Theorem C03_out_of_type_range_signed_to_unsigned_skipped p vt ct cl o c :
+  vsign_of vt = VSigned -> t_sign ct = Unsigned ->
+  Z.max (int_bit p) (bits_of p (t_base vt)) <= bits_of p (t_base ct) ->
+  oor_in_context p vt ct cl o c = None.
+Proof. exact (signed_to_unsigned_skipped p vt ct cl o c). Qed.
+Print Assumptions C03_out_of_type_range_signed_to_unsigned_skipped.
+
+(* ... the conversion hypothesis is still needed: operands of equal size, different rank and different sign
+   (replayed on the real binary: known finding oor-equal-size-different-rank) *)
 Theorem C03_out_of_type_range_in_C_refuted :
   exists p vt ct cl o c x b,
     fits p vt x = true /\ fits p ct c = true /\
@@ -39,20 +49,14 @@ Theorem C03_out_of_type_range_in_C_refuted :
 Proof. exact oor_in_context_refuted. Qed.
 Print Assumptions C03_out_of_type_range_in_C_refuted.
 
-(* comparisonError: "(X & c1) o c2" / "(X | c1) o c2" has the reported value for every X *)
-Theorem C03_mask_compare_sound is_and u1 o c1 c2 b :
-  mask_compare is_and u1 o c1 c2 = Some b ->
+(* comparisonError: the comparison as written, constant on either side (operator mirrored since fix 16eb134),
+   has the reported value for every X *)
+Theorem C03_mask_compare_sound is_and u1 cl o c1 c2 b :
+  mask_compare is_and u1 cl o c1 c2 = Some b ->
   forall x, (is_and = false -> u1 = true -> 0 <= x) ->
-  cmp_eval o (bit_value is_and x c1) c2 = b.
-Proof. exact (mask_compare_sound is_and u1 o c1 c2 b). Qed.
+  cond_value cl o (bit_value is_and x c1) c2 = b.
+Proof. exact (mask_compare_sound is_and u1 cl o c1 c2 b). Qed.
 Print Assumptions C03_mask_compare_sound.
-
-(* the operator is not mirrored when the constant is the left operand (known finding
-   comparison-constant-on-left-not-mirrored) *)
-Theorem C03_mask_compare_const_left_refuted :
-  exists o c1 c2 b x, mask_compare true false o c1 c2 = Some b /\ cond_value true o (bit_value true x c1) c2 = negb b.
-Proof. exact mask_compare_const_left_refuted. Qed.
-Print Assumptions C03_mask_compare_const_left_refuted.
 
 (* isOppositeCond, numeric core: "X o1 c1" true => "X o2 c2" false, for every X *)
 Theorem C03_opposite_cond_sound o1 c1 o2 c2 :
@@ -78,12 +82,15 @@ Example C03_ex_oor : out_of_type_range 32 8 VSigned true false CEq 200 = Some fa
 Proof. reflexivity. Qed.
 Example C03_ex_oor_edge : out_of_type_range 32 8 VUnsigned true false CLe 255 = Some true.
 Proof. reflexivity. Qed.
+Example C03_ex_skip : oor_in_context unix64 (mkT TShort Signed) tuint false CLt 40000 = None.
+Proof. reflexivity. Qed.
 Example C03_ex_oor_in_C :
   oor_in_context unix64 (mkT TChar Signed) tint false CEq 200 = Some false /\
   convert unix64 (usual unix64 (mkT TChar Signed) tint) (-5) = -5 /\
   convert unix64 (usual unix64 (mkT TChar Signed) tint) 200 = implicit_conv unix64 (mkT TChar Signed) tint 200.
 Proof. vm_compute. split; [reflexivity|]. split; reflexivity. Qed.
-Example C03_ex_mask : mask_compare true false CEq 3 4 = Some false /\ mask_compare false true CGe 7 7 = Some true.
-Proof. split; reflexivity. Qed.
+Example C03_ex_mask : mask_compare true false false CEq 3 4 = Some false /\ mask_compare false true false CGe 7 7 = Some true /\
+  mask_compare true false true CGt 3 8 = Some true (* 8 > (x & 3) *).
+Proof. split; [reflexivity|split; reflexivity]. Qed.
 Example C03_ex_opp : opposite_cond false CLt 5 CGt 10 = true /\ opposite_table true CLt CGe = true.
 Proof. split; reflexivity. Qed.
